@@ -85,7 +85,7 @@ def configs(tier, seed):
             out.append(dict(part='convert', route=rng.choice(('resize', 'resize_partial')), x=list(x), y=list(y), rounding=r, overflow=o))
     # rarely used size-argument combinations of resize / the constructor (n_int alone, n_int with like=, all three lengths, dtype with n_int)
     for x in C.pick([q for q in sm if q[1] >= 3 and 0 <= q[2] <= q[1]], N(5, 30), rng):
-        for combo in ('resize_nint', 'resize_nint_word', 'resize_nint_frac', 'resize_signed', 'resize_all_four', 'like_nint', 'like_signed', 'ctor_all_four',
+        for combo in ('resize_nint', 'resize_nint_word', 'resize_nint_frac', 'resize_signed', 'resize_all_four', 'like_nint', 'like_signed', 'like_signed_nint_frac', 'resize_signed_nint_frac', 'template_signed_nint_frac', 'ctor_all_four',
                       'ctor_dtype_nint', 'ctor_nint_word', 'ctor_nint_frac'):
             out.append(dict(part='argcombo', combo=combo, x=list(x), k=rng.choice((0, 1, 2, 5))))
     # reductions and element-wise NumPy functions (both call routes)
@@ -296,6 +296,13 @@ def run(F, cfg, inp):
             d = F.Fxp(x, like=x, n_int=k)
         elif c == 'like_signed':
             d = F.Fxp(x, like=x, signed=not s0)
+        elif c == 'like_signed_nint_frac':
+            d = F.Fxp(x, like=x, signed=not s0, n_int=k + 1, n_frac=f0)
+        elif c == 'resize_signed_nint_frac':
+            x.resize(signed=not s0, n_int=k + 1, n_frac=f0)
+            d = x
+        elif c == 'template_signed_nint_frac':
+            d = F.Fxp(x(), signed=not s0, n_int=k + 1, n_frac=f0, template=x)
         elif c == 'ctor_all_four':
             d = F.Fxp(x(), s0, n0, f0, n_int=k)
         elif c == 'ctor_dtype_nint':
